@@ -322,6 +322,9 @@ func countValues(c b6.UntypedCollection) ([]*kv, error) {
 			break
 		}
 
+		if !Hashable(i.Value()) {
+			return nil, fmt.Errorf("can't count values of type %T", i.Value())
+		}
 		var e *kv
 		if e, ok = m[i.Value()]; ok {
 			e.value++
